@@ -105,6 +105,22 @@ async def consume_a(b, plan, close, keep=None):
         if isinstance(o, list) and o[0] == "mutate":
             mutate_source(b, o)
             continue
+        if isinstance(o, list) and o[0] == "again":
+            # an iterator that FAILED is asked again (library side only: the stdlib counterparts differ in what
+            # they do then); whatever it answers, it must not touch a source or a callable to do so
+            if o[1] < len(outs) and done[o[1]] == "raise":
+                ctx.ev("again-begin", o[1])
+                try:
+                    value = await outs[o[1]].__anext__()
+                except StopAsyncIteration:
+                    ctx.ev("again", o[1], "stop")
+                except BaseException as exc:  # noqa: B902
+                    ctx.ev("again", o[1], "raise", type(exc).__name__)
+                else:
+                    ctx.ev("again", o[1], "yield")
+                    del value
+                ctx.ev("again-end", o[1])
+            continue
         if isinstance(o, list) and o[0] == "repoll":
             # an iterator that reported exhaustion is asked again: it must still be exhausted
             if o[1] < len(outs) and done[o[1]] == "stop":
@@ -136,7 +152,7 @@ async def consume_a(b, plan, close, keep=None):
             done[o] = "stop"
         except BaseException as exc:  # noqa: B902 - recorded as data
             ev_raise(ctx, o, exc)
-            done[o] = True
+            done[o] = "raise"
         else:
             ctx.ev("yield", o, sig(value))
             if keep is not None:
@@ -175,6 +191,8 @@ def consume_s(b, plan, keep=None):
     for o in plan:
         if isinstance(o, list) and o[0] == "mutate":
             mutate_source(b, o)
+            continue
+        if isinstance(o, list) and o[0] == "again":
             continue
         if isinstance(o, list) and o[0] == "repoll":
             if o[1] < len(outs) and done[o[1]] == "stop":
